@@ -509,3 +509,27 @@ def canon_test(t: str) -> str:
             e = ast.Compare(left=e.left, ops=[flip[type(e.ops[0])]()], comparators=e.comparators)
             return norm_text(e, limit=100000).replace('"', "'")
     return t
+
+
+def flat_args(c: ast.Call) -> List[ast.expr]:
+    """positional arguments of a call with starred tuple displays / concatenations written out: f(*((a,) + (b,) + rest)) -> [a, b, *rest]"""
+    out: List[ast.expr] = []
+
+    def star(e):
+        if isinstance(e, ast.BinOp) and isinstance(e.op, ast.Add):
+            star(e.left)
+            star(e.right)
+        elif isinstance(e, (ast.Tuple, ast.List)):
+            for x in e.elts:
+                if isinstance(x, ast.Starred):
+                    star(x.value)
+                else:
+                    out.append(x)
+        else:
+            out.append(ast.Starred(value=e, ctx=ast.Load()))
+    for a in c.args:
+        if isinstance(a, ast.Starred):
+            star(a.value)
+        else:
+            out.append(a)
+    return out
